@@ -29,7 +29,7 @@ THEOREMS = {
             "Named.C19_split_bordered_counter", "Named.C19_genFormat", "Named.C19_pairs", "Named.C19_pairs_exact_partial", "Named.C19_statement_partial",
             "Named.C19_statement_unnamed_partial", "Named.fmtSubst_render",
             "Named.C19_json_members", "Named.C19_json_single_line", "Named.C19_template_newlines", "Named.C19_json_parses",
-            "Named.C19_loops_run_to_completion", "Named.C19_cache_transparent", "Named.C19_lookup_transparent", "Named.C19_logj",
+            "Named.C19_loops_run_to_completion", "Named.C19_cache_transparent", "Named.C19_lookup_transparent", "Named.C19_logj", "Named.C19_logj_colon_counter",
             "Obligations.named_extraction_complete", "Obligations.named_separator_ok", "Obligations.named_json_layout",
             "Obligations.named_json_literals", "Obligations.named_detect_chars", "Obligations.named_process_chars",
             "Obligations.named_cache_key", "Obligations.named_logj_shape", "Obligations.C19_split_join_extracted",
@@ -48,6 +48,9 @@ F11_CLASSES = {
                        "_process_named_args_format_message takes the `}` + `}}` run for an escape: e.g. `{{{a}}}` -> key `a}}`, fmt string `{{{}`"),
     "detectOK": ("F11b", "template class: a positional placeholder directly followed by a named placeholder, `{{` or `}}` before the first named one read in step — "
                          "_contains_named_args never examines the character after a placeholder: e.g. `{}{a}` not detected, `{}{{x` detected"),
+    "logjArg": ("F11c", "LOGJ_ call site whose argument is not a plain identifier and is spelled with a `:` — the macro stringifies the "
+                        "argument as written, so `LOGJ_INFO(l, \"qualified\", ns_q::val)` generates `qualified {ns_q::val}` = placeholder `ns_q` "
+                        "with spec `:val`: key `ns_q`, fmt rejects the spec, the statement text is replaced by the error text"),
 }
 
 
@@ -227,8 +230,14 @@ class Run:
         k = self.known.setdefault(cls, [0, sample])
         k[0] += 1
 
-    def oracle_verdict(self, what, hex_t, line, replay):
+    def oracle_verdict(self, what, hex_t, line, replay, idx=None):
         c = classify(hex_t)
+        if c is not None and idx is not None and idx >= 50 and what in ("message", "pairs") and "logjArg" not in self.fixed:
+            # LOGJ_ never generates a spec: a `:` inside a placeholder of a LOGJ_ template comes from the argument spelling
+            ps = parse(unhex(hex_t))
+            if any(p[0] == "F" and p[2] is not None for p in ps):
+                self.note_known("logjArg", line)
+                return
         relevant = {"detect": ["detectOK"], "positional": ["procOK"], "keys": ["procOK"],
                     "message": ["procOK", "detectOK"], "pairs": ["procOK", "detectOK"]}.get(what, [])
         if c is not None:
@@ -311,7 +320,8 @@ class Run:
                     self.wrong["procOK"].add(d.get("tmpl", "-"))
                 elif w[1] == "detect":
                     self.wrong["detectOK"].add(d.get("tmpl", "-"))
-                self.oracle_verdict(w[1], d.get("tmpl", "-"), ln, self.replay_for(lines, i - 1))
+                self.oracle_verdict(w[1], d.get("tmpl", "-"), ln, self.replay_for(lines, i - 1),
+                                    int(d["idx"]) if d.get("idx", "").isdigit() else None)
             elif ln.startswith("STATS"):
                 self.harness_stats.append(label + ": " + ln)
                 d = kv(ln.split()[1:])
